@@ -22,7 +22,7 @@ INFO = {
                    "values[a] unchecked), every operator code is one eval_fr implements (set taken from C19's extraction on the current "
                    "tree), Input nodes form one contiguous run as get_inputs_size assumes, input indices are below the buffer size, "
                    "witness-signal indices are below the node count, stored constants are canonical (< p), the container is consumed "
-                   "exactly and the trailer points at the metadata. R05-5 (shared with C19): the operators the graph is evaluated with realise circom's comparison table, reduce before from_bigint, guard division and shifts, and take integer quotient / remainder and the ring operations on the whole values.",
+                   "exactly and the trailer points at the metadata. R05-5 (shared with C19): the operators the graph is evaluated with realise circom's comparison table, reduce before from_bigint, guard division and shifts, and take integer quotient / remainder and the ring operations on the whole values. R05-5 includes C19 R19-7 (the conversions every evaluate input passes through are the identity on whole values).",
     "not_decided": "the first sentence: equality of the computed witness with the reference generator (rln.wasm) for every assignment - a "
                    "numeric fact about 22k field operations; operator arithmetic on boundary operands is C19's",
     "assumptions": ["the pure-Python protobuf reader in zkrules/resources.py implements the wire format of proto.rs (field numbers checked by C20)"],
